@@ -163,6 +163,14 @@ class SetWrapper(typing.MutableSet[T]):
             for v in arg:
                 self.add(v)
 
+    @classmethod
+    def _from_iterable(cls, it: typing.Iterable[S]) -> typing.Set[S]:
+        # The ABC's binary operators (&, -, ^ and the reflected forms) build
+        # their result through this hook. Subclasses take extra constructor
+        # arguments and own their elements, so results are plain sets, just
+        # like __or__ returns.
+        return set(it)
+
     # begin functions for ABC
     def __contains__(self, v: object) -> bool:
         return v in self._data
